@@ -292,6 +292,19 @@ func (c *CEnv) ident(e *CE, hint *Value) Value {
 			return v
 		}
 	}
+	// variables a closure captures (by reference: their current value in the heap the clause looks at)
+	if c.fr != nil && c.fr.fn != nil && !c.specMode {
+		for _, fv := range c.fr.fn.FreeVars {
+			if fv.Name() == name {
+				if v, ok := c.fr.env[fv]; ok {
+					if v.K == KPtr {
+						return c.x.loadLoc(c.heap(), v.Loc)
+					}
+					return v
+				}
+			}
+		}
+	}
 	if name == "where" {
 		if c.whereExpr != nil {
 			// a callee's hypothesis, expanded in the caller's context
@@ -906,7 +919,7 @@ func (c *CEnv) callExpr(e *CE, hint *Value) Value {
 		}
 		c.x.vc.needBEVal()
 		return c.mathInt(App("beval", SInt, a.X, p.X, q.X))
-	case "rpos", "ravail", "rbyte", "wlen", "wbyte":
+	case "rpos", "ravail", "rbyte", "wlen", "wbyte", "infallible":
 		v, _ := c.ioBuiltin(name, e)
 		return v
 	case "unix", "nanosecond":
